@@ -228,7 +228,10 @@ def _generic_shared(rng, tier, i):
         # the tree has been looked at before the shared node is installed (children, values, keys, edges ...): a derived
         # list that an accessor caches must not be what the walk later trusts instead of the real children
         for node in [root] + [g_() for _, g_, _ in slots]:
-            dense_ok = not (probes.base_kind(node) == "SparselyBin" and node.bins and int(max(node.bins)) - int(min(node.bins)) > 5000)
+            tgt = node
+            while probes.base_kind(tgt) == "Select":
+                tgt = tgt.cut  # a Select forwards unknown attributes (bin_entries ...) to its cut
+            dense_ok = not (probes.base_kind(tgt) == "SparselyBin" and tgt.bins and int(max(tgt.bins)) - int(min(tgt.bins)) > 5000)
             for a_ in ("children", "values", "keys", "size", "bins", "thresholds", "centers", "n_bins", "n_dim", "indexes", "range", "bin_edges", "bin_centers", "bin_entries", "num_bins", "bin_width", "bin_labels"):
                 if not dense_ok and a_ in ("bin_edges", "bin_centers", "bin_entries", "num_bins", "indexes", "range"):
                     continue  # a sparse histogram spanning 2**63 bins: its dense views cannot be materialised
